@@ -347,7 +347,7 @@ func runCase(c Case, st *ev.Stats) error {
 		for _, s := range tx.Enters {
 			if pipedSet[s] {
 				toggles[s]++
-				if c.Bind != "Flat" {
+				if c.Bind != "Flat" || c.RemoteFlat {
 					expected++
 				}
 			}
@@ -355,7 +355,7 @@ func runCase(c Case, st *ev.Stats) error {
 		for _, s := range tx.Exits {
 			if pipedSet[s] {
 				toggles[s]++
-				if c.Bind != "Flat" && c.Bind != "BindErr" {
+				if (c.Bind != "Flat" || c.RemoteFlat) && c.Bind != "BindErr" {
 					expected++
 				}
 			}
@@ -376,7 +376,8 @@ func runCase(c Case, st *ev.Stats) error {
 	deadline := time.Now().Add(10 * time.Second)
 	for {
 		idle := src.QueueLen() == 0 && src.Transition() == nil && tgt.QueueLen() == 0 && tgt.Transition() == nil && px.inFlight.Load() == 0
-		callsDone := c.Bind == "Flat" || c.Bind == "BindAny" || int(px.calls.Load()) >= expected
+		// (a flat pipe to a non-local target forwards every toggle, through an ordered fork: wait for all of them)
+		callsDone := (c.Bind == "Flat" && !c.RemoteFlat) || c.Bind == "BindAny" || int(px.calls.Load()) >= expected
 		if idle && callsDone {
 			time.Sleep(2 * time.Millisecond)
 			if px.inFlight.Load() == 0 && tgt.QueueLen() == 0 {
